@@ -2,6 +2,7 @@ package system
 
 import (
 	"context"
+	"database/sql"
 	"errors"
 	"fmt"
 	"sync"
@@ -21,6 +22,25 @@ type controllerFacade struct {
 	ledger ledger.Ledger
 }
 
+// BeginTX keeps the state tracking on the transactional controller: writes made
+// through it (atomic bulk) must also move the ledger out of the 'initializing'
+// state and resync its sequences, inside that same transaction.
+func (c *controllerFacade) BeginTX(ctx context.Context, options *sql.TxOptions) (ledgercontroller.Controller, *bun.Tx, error) {
+	ctrl, tx, err := c.Controller.BeginTX(ctx, options)
+	if err != nil {
+		return nil, nil, err
+	}
+
+	c.mu.RLock()
+	l := c.ledger
+	c.mu.RUnlock()
+
+	return &controllerFacade{
+		Controller: ctrl,
+		ledger:     l,
+	}, tx, nil
+}
+
 func (c *controllerFacade) handleState(ctx context.Context, dryRun bool, fn func(ctrl ledgercontroller.Controller) error) error {
 	c.mu.RLock()
 	l := c.ledger
@@ -30,7 +50,7 @@ func (c *controllerFacade) handleState(ctx context.Context, dryRun bool, fn func
 		return fn(c.Controller)
 	}
 
-	ctrl, tx, err := c.BeginTX(ctx, nil)
+	ctrl, tx, err := c.Controller.BeginTX(ctx, nil)
 	if err != nil {
 		return err
 	}
